@@ -14,7 +14,7 @@ REQUIRED_EVENTS = ["hits_located"]
 
 
 def feat(rng):
-    return RG.Feat(operands=0.75, max_spine=rng.choice([1, 2, 3, 4]))
+    return RG.Feat(operands=0.75, odd_names=0.06, max_spine=rng.choice([1, 2, 3, 4]))
 
 
 HREGS = ["ah", "bh", "ch", "dh"]
